@@ -191,6 +191,9 @@ func (p *Parser) parseWithRecovery(tokens []token.Token, positions []TokenPositi
 		stmt, err := p.parseStatement()
 		if err != nil {
 			// Create a ParseError with position info, preserving original error
+			// (whose own location, if it has none yet, is filled in as well: a
+			// caller that unwraps the cause must not find line 0, column 0)
+			err = p.locateError(err)
 			loc := p.currentLocation()
 			pe := &ParseError{
 				Msg:      err.Error(),
